@@ -316,8 +316,9 @@ def _gen_case(rng, tier, n=None):
     if len(_features(case)) == 1:   # the known-defect shapes are confined to the corner cases
       break
   forms = list(IMPORT_FORMS)[:5] if mode == 'dynamic' else ['plain', 'from']
-  mods = case.pop('modules') if mode == 'dynamic' else rng.sample(['vq_pkg.alpha', 'vq_top'],
-                                                                  rng.choice([0, 0, 1, 2]))
+  mods = case.pop('modules')
+  if mode == 'static':   # imports are recorded and re-emitted without dynamic registration too
+    mods = rng.sample(['vq_pkg.alpha', 'vq_top'], rng.choice([0, 0, 1, 2]))
   case['imports'] = [[m, rng.choice(forms if '.' in m else ['plain', 'plain_as'][:len(forms) - 1])]
                      for m in mods]
   perms = list(itertools.permutations(range(n)))
@@ -328,7 +329,6 @@ def _gen_case(rng, tier, n=None):
   for k in range(2 if tier == 'quick' else 7):
     ind = rng.choice([0, 1, 2, 4, 8])
     case['widths'].append([ind + 1 if k == 0 else rng.randint(ind + 1, 120), ind])
-  case.pop('modules', None)
   return case
 
 
@@ -376,8 +376,8 @@ def _corner_cases():
                            ('', 't_gg', 'x', obj('object')), ('', 't_gg', 'y', one)],
                imports=[['vq_pkg.alpha', form], ['vq_pkg.beta', 'from_as'], ['vq_top', 'plain']],
                orders=[[0, 1, 2, 3], [3, 1, 2, 0]])
-  yield make('dynamic', [('', 'a_fa', 'x', one), ('', 't_gg', 'x', ['i', 2])], imports=[['vq_pkg.alpha', 'clash']],
-             prog=None)
+  yield make('dynamic', [('', 'a_fa', 'x', one), ('', 't_gg', 'x', ['i', 2])], prog=None,
+             imports=[['vq_pkg.alpha', 'clash']])   # t_gg is bound programmatically
   for forms in (('plain', 'plain'), ('plain_as', 'parent'), ('parent', 'plain')):
     yield make('dynamic', [('', 'a_fa', 'x', one), ('', 'b_fa', 'x', ref('a_Foo')), ('', '%', 'mm', one)],
                imports=[['vq_pkg.alpha', forms[0]], ['vq_pkg.beta', forms[1]]])
@@ -518,7 +518,7 @@ def check(case):
     sig = '%s: %s [%s]' % (clause, sig, feat)
     if sig in [f['signature'] for f in fails]:
       return   # once per case (the same failure usually repeats at every width)
-    fails.append({'clause': clause, 'expected': expected, 'observed': str(observed)[:300],
+    fails.append({'clause': clause, 'expected': str(expected)[:300], 'observed': str(observed)[:300],
                   'signature': sig})
 
   def attempt(clause, fn, *args, note=''):
